@@ -31,7 +31,9 @@ NS_POOL = ['My', 'Project', 'Sub', 'Hal', 'a', 'b', 'N1', 'n_2', 'Types', 'X', '
 TYPE_POOL = ['IApi', 'IHw', 'Result', 'Info', 'T', 'Status', 'IApi', 'Result', 'ICtl', 'x1', 'E',
              'Long_Type_Name_0123456789', 'i', 'Msg', 'IHw']
 COMP_POOL = ['Toaster', 'Ctl', 'C', 'comp_1', 'Heater', 'MySystem']
-PORT_POOL = ['api', 'hw', 'hw2', 'cfg', 'p', 'Port', 'ctrl_1', 'q', 'heater', 'X', 'veryLongPortName_01']
+PORT_POOL = ['api', 'hw', 'hw2', 'cfg', 'p', 'Port', 'ctrl_1', 'q', 'heater', 'X', 'veryLongPortName_01',
+             'api2', 'apiX']
+PREFIX_PORT_POOL = ['api', 'api2', 'apiX', 'ap', 'hw', 'hw2', 'p', 'p1', 'p10']
 EVENT_POOL = ['Claim', 'Release', 'Grab', 'Unclaim', 'Start', 'Stop', 'Ok', 'Fail', 'Tripped', 'On',
               'Get', 'e1', 'E', 'claim', 'release', 'Release_', 'Set_value', 'x']
 FORMAL_POOL = ['info', 'why', 'x', 'n', 'msg', 'value', 'arg1', 'p_', 'Info', 'y', 'z']
@@ -40,7 +42,7 @@ FIELD_POOL = ['Ok', 'Fail', 'Error', 'Yes', 'No', 'f0', 'A', 'b', 'Busy']
 FEATURES = ['deep_ns', 'global_enc', 'shared_itf', 'empty_itf', 'no_ports', 'inout_mix',
             'out_many_formals', 'nested_enum', 'outer_enum', 'injected', 'same_name_siblings',
             'multi_id_ns', 'reopened_ns', 'system_enc', 'partial_spelling', 'distractors',
-            'many_ports', 'subint_reply', 'bool_reply', 'mc_ready']
+            'many_ports', 'subint_reply', 'bool_reply', 'mc_ready', 'ref_extern', 'prefix_ports']
 
 
 def _uniq(draw, pool, taken, n=1):
@@ -97,6 +99,8 @@ def shell_model(draw, force=None, max_ports=6, collide=False):  # pylint: disabl
         sc = draw(st.sampled_from(scopes))
         nm = _uniq(draw, pool_for(['Info', 'Msg', 'T', 'Data', 'Value_t', 'Result']), names_in[sc])
         e = {'k': 'extern', 'name': [nm], 'value': f'::xt::T{i}'}
+        if 'ref_extern' in feats and i == 0:
+            e['value'] = f'const ::xt::T{i}&'  # a reference-typed extern: only usable for in formals
         externs.append((sc, e))
         decls.append((sc, e))
 
@@ -200,7 +204,7 @@ def shell_model(draw, force=None, max_ports=6, collide=False):  # pylint: disabl
         itf_fqn = tuple(sc) + tuple(itf['name'])
         ev_taken = set()
         n_in = draw(st.integers(2 if 'mc_ready' in feats else 1, 4))
-        n_out = draw(st.integers(0, 3))
+        n_out = draw(st.integers(1 if ('mc_ready' in feats or 'prefix_ports' in feats) else 0, 3))
         for j in range(n_in + n_out):
             is_in = j < n_in
             ev = {'name': _uniq(draw, EVENT_POOL, ev_taken), 'dir': 'in' if is_in else 'out',
@@ -229,6 +233,8 @@ def shell_model(draw, force=None, max_ports=6, collide=False):  # pylint: disabl
                         draw(st.sampled_from(['in', 'in', 'out', 'inout']))
                 else:
                     d = 'in'
+                if ref[0]['elem']['value'].endswith('&'):
+                    d = 'in'
                 ev['formals'].append({'name': _uniq(draw, FORMAL_POOL, f_taken), 'type': ref[1],
                                       'dir': d})
             itf['events'].append(ev)
@@ -252,7 +258,7 @@ def shell_model(draw, force=None, max_ports=6, collide=False):  # pylint: disabl
                 shared = ref
             direction = 'provides' if j == 0 else draw(st.sampled_from(['provides', 'requires',
                                                                        'requires']))
-            nm = _uniq(draw, PORT_POOL, p_taken)
+            nm = _uniq(draw, PREFIX_PORT_POOL if 'prefix_ports' in feats else PORT_POOL, p_taken)
             # port names that differ only in the case of the first letter collide in the
             # generated accessor names (listed finding): excluded by construction
             p_taken.add(nm[0].upper() + nm[1:])
